@@ -638,6 +638,19 @@ def anchored_files(prop: str):
 def run_sweep(prop: str, jobs: int = 16) -> dict:
     files = anchored_files(prop)
     vs = gen_variants(files=files)
+    total = len(vs)
+    cap = int(os.environ.get("VT_SWEEP_CAP", "360"))
+    if total > cap:
+        # deterministic, kind-stratified subsample (the hand tool tools/preserve_sweep.py runs all of them)
+        by_kind = {}
+        for v in vs:
+            by_kind.setdefault(v[1], []).append(v)
+        share = max(4, cap // max(1, len(by_kind)))
+        vs = []
+        for k in sorted(by_kind):
+            lst = by_kind[k]
+            step = max(1, len(lst) // share)
+            vs.extend(lst[::step][:share])
     with mp.Pool(min(jobs, os.cpu_count() or 1)) as pool:
         results = pool.map(_work, [(v, [prop]) for v in vs], chunksize=4)
     bad = [(v, fname, new) for v, fname, new in results if new]
@@ -647,7 +660,7 @@ def run_sweep(prop: str, jobs: int = 16) -> dict:
     if bad:
         msg = "; ".join(f"{v[0]}:{fname}:{v[1]}#{v[3]} -> {new[0][1]} {new[0][2]}" for v, fname, new in bad[:6])
         raise AnalysisError(f"generic preserve sweep: {len(bad)} of {len(results)} behaviour-preserving variants raised new findings: {msg}")
-    return {"behaviour_preserving_variants": len(results), "silent": len(results), "by_kind": kinds, "files": sorted(files or [])}
+    return {"behaviour_preserving_variants": len(results), "silent": len(results), "generated": total, "by_kind": kinds, "files": sorted(files or [])}
 
 
 # ------------------------------------------------------------------ behaviour-changing probes (evidence of sensitivity, not a verdict)
